@@ -74,6 +74,8 @@ def run(ctx):
              "keys", floor=5)
     run.rule("C10.R6", "rule-enforcing methods of the parser == reference",
              floor=14)
+    run.rule("C10.R9", "the name converters the schema parser uses accept "
+             "exactly their documented languages", floor=3)
     run.rule("C10.R7", "only SchemaError-family exceptions leave schema "
              "loading from the schema/info layer; parser errors carry the "
              "locator", floor=2)
@@ -202,9 +204,33 @@ def run(ctx):
                  "characters_description", "characters_example"):
         crosscheck(ctx, "C10.R6", BP + "." + name, RS, name, BP, name)
 
+    # ------------------------------------------------------------------ R9
+    # "well-formed names": the converters the schema parser applies to names,
+    # attributes, prefixes and datatype names accept exactly their documented
+    # languages (the same decision as C09.R1, for the names used here)
+    from rules import c07, c09
+    used = set()
+    for fi in m.functions.values():
+        if fi.module.name not in ("ZConfig.schema", "ZConfig.info"):
+            continue
+        for n in walk_shallow(fi.node):
+            if isinstance(n, ast.Call) and isinstance(n.func, ast.Attribute) \
+                    and n.func.attr == "get" and n.args:
+                vals = c07.possible_constants(fi, n.args[0]) \
+                    if "registry" in src(n.func.value).lower() else None
+                for v in vals or ():
+                    if isinstance(v, str):
+                        used.add(v)
+    used &= set(c09.REFERENCE_LANG)
+    run.analysed["name_converters_used_by_schema_parser"] = sorted(used)
+    if len(used) < 3:
+        raise AnalysisError("anchor vanished: the schema parser no longer "
+                            "obtains its name converters from the registry "
+                            "by literal name (found %s)" % sorted(used))
+    c09.pattern_rule(ctx, "C10.R9", only=used)
+
     # ------------------------------------------------------------------ R7
     ef = ctx.excflow
-    from rules import c07
     c07._install_specialisations(ctx, ef)
     SL = "ZConfig.loader.SchemaLoader"
     for q in ("ZConfig.loader.BaseLoader.loadURL",
